@@ -219,3 +219,59 @@ Corollary run_refines_init ops :
   Forall c01_op ops -> Forall import_ok ops -> no_crash (run init ops) ->
   spec_trace (abs init) ops (run init ops).
 Proof. intros. now apply (run_refines ops init Inv_init eq_refl). Qed.
+
+(* ---- histories that also contain the other request kinds ----
+   publish, publish streams, subscriptions of both kinds, locks and the debugging dump do not touch the
+   data: interleaved with them, every read still answers what the accepted writes imply *)
+Definition other_op (o : op) : Prop :=
+  match o with
+  | OPublish _ _ | OSPubInit _ _ _ | OSPub _ _ _ | OSubscribe _ _ _ _ _ | OPSubscribe _ _ _ _ _
+  | OUnsubscribe _ _ | OSubscribeLs _ _ _ | OUnsubscribeLs _ _ | OLock _ _ | OAcquire _ _ | ORelease _ _
+  | ODump => True
+  | _ => False
+  end.
+Definition any_req (o : op) : Prop := c01_op o \/ other_op o.
+
+Lemma other_data_same s o : other_op o -> data (fst (step s o)) = data s.
+Proof.
+  destruct o; try contradiction; intros _; cbn [step fst]; try reflexivity.
+  - unfold do_publish. now destruct (parse_segments k).
+  - unfold do_spub_init. now destruct (check_read_only k c).
+  - unfold do_spub. match goal with |- context [match ?x with Some _ => _ | None => _ end] => destruct x as [key|] end; [|reflexivity].
+    unfold do_publish. now destruct (parse_segments key).
+  - unfold do_subscribe. repeat match goal with |- context [match ?x with _ => _ end] => destruct x end; reflexivity.
+  - unfold do_psubscribe. repeat match goal with |- context [match ?x with _ => _ end] => destruct x end; reflexivity.
+  - unfold do_unsubscribe. repeat match goal with |- context [match ?x with _ => _ end] => destruct x end; reflexivity.
+  - unfold do_unsubscribe_ls. repeat match goal with |- context [match ?x with _ => _ end] => destruct x end; reflexivity.
+  - unfold do_lock. repeat match goal with |- context [match ?x with _ => _ end] => destruct x end; reflexivity.
+  - unfold do_acquire. repeat match goal with |- context [match ?x with _ => _ end] => destruct x end; reflexivity.
+  - unfold do_release. repeat match goal with |- context [match ?x with _ => _ end] => destruct x end; reflexivity.
+Qed.
+
+Theorem step_refines_any s o :
+  Inv s -> LenInv s -> any_req o -> import_ok o ->
+  let r := step s o in
+  o_res (snd r) <> RCrash ->
+  Inv (fst r) /\ LenInv (fst r) /\
+  write_effect (abs s) (abs (fst r)) o (o_res (snd r)) /\
+  read_ok (abs s) o (o_res (snd r)).
+Proof.
+  intros HI HL [Hop|Hop] Himp r Hnc; [now apply step_refines|].
+  pose proof (other_data_same s o Hop) as Ed. fold r in Ed.
+  split; [unfold Inv in *; now rewrite Ed|]. split; [now apply step_len|].
+  assert (Hm : meq (abs (fst r)) (abs s)) by (intros q; unfold abs; now rewrite Ed).
+  destruct o; try contradiction; (split; [|exact I]); cbn [write_effect]; try exact Hm;
+    destruct (o_res (snd r)); exact Hm.
+Qed.
+
+Theorem run_refines_any ops : forall s,
+  Inv s -> LenInv s -> Forall any_req ops -> Forall import_ok ops -> no_crash (run s ops) ->
+  spec_trace (abs s) ops (run s ops).
+Proof.
+  induction ops as [|o ops IH]; intros s HI HL Hops Himp Hnc; [exact I|].
+  inversion Hops as [|? ? Ho Hops']; subst. inversion Himp as [|? ? Hi Himp']; subst.
+  cbn [run] in *. inversion Hnc as [|? ? Hc Hnc']; subst.
+  destruct (step_refines_any s o HI HL Ho Hi Hc) as (HI' & HL' & Hw & Hr).
+  rewrite (is_crash_false _ Hc) in *. cbn [spec_trace]. split; [exact Hr|].
+  exists (abs (fst (step s o))). split; [exact Hw|]. now apply IH.
+Qed.
